@@ -292,6 +292,88 @@ func c01units(tier string) []mc.Unit {
 		r.AddTransitions(int64(len(cases)))
 		r.AddNontrivial(int64(len(cases)))
 	}})
+	// every printable character at a wrap point: as the last character of a full line, as the first character of a
+	// continuation line and as a one-letter word at either place, in a qualifier value, the DEFINITION and a COMMENT
+	us = append(us, mc.Unit{Name: "wrap-boundaries", Weight: 40, Run: func(r *mc.Recorder) {
+		var tags []string
+		var base gbRec
+		once(func(c *mc.Ctx) { base = gbGenRecord(c, gbGenOpts{maxFeatures: 0, lengths: []int{60}}, 0, &tags) })
+		var cnt int64
+		// place builds a text whose word-wrapping (width, firstUsed) puts the word w at the end of the first line
+		// (where=0) or at the start of the second line (where=1)
+		place := func(w string, width, firstUsed, where int) (string, bool) {
+			for fill := 1; fill < width; fill++ {
+				text := "start " + strings.Repeat("x", fill)
+				if where == 0 {
+					text += w + " next words follow here"
+				} else {
+					text += " " + w + "tail and more words"
+				}
+				lines := wrapWords(text, width, firstUsed)
+				if len(lines) < 2 {
+					continue
+				}
+				if where == 0 && strings.HasSuffix(lines[0], w) && len(lines[0]) == width-firstUsed {
+					return text, true
+				}
+				if where == 1 && strings.HasPrefix(lines[1], w) && len(lines[0])+1+len(w)+4 > width-firstUsed {
+					return text, true
+				}
+			}
+			return "", false
+		}
+		for ch := 0x21; ch <= 0x7e; ch++ {
+			if ch == '"' {
+				continue // a quotation mark inside a value is written doubled: a different rule
+			}
+			for _, form := range []string{string(rune(ch)), " " + string(rune(ch))} { // glued to the word, or a word of its own
+				for where := 0; where < 2; where++ {
+					if where == 1 && ch == '/' {
+						continue // a continuation line that starts with '/' reads as a new qualifier in any GenBank reader
+					}
+					w := form
+					if where == 1 {
+						w = strings.TrimPrefix(form, " ")
+						if form != w {
+							w += " "
+						}
+					}
+					for field := 0; field < 3; field++ {
+						rec := base
+						var ok bool
+						var text string
+						switch field {
+						case 0:
+							text, ok = place(w, gbFieldWidth, len("/note=\""), where)
+							rec.feats = []gbFeat{{"misc_feature", "1..30", []gbQual{{key: "note", val: text}, {key: "gene", val: "after"}}}, {"gene", "31..40", []gbQual{{key: "gene", val: "second"}}}}
+						case 1:
+							text, ok = place(w, 68, 0, where)
+							rec.definition = text
+						case 2:
+							text, ok = place(w, 68, 0, where)
+							rec.extra = []gbExtra{{"COMMENT", text}}
+						}
+						if !ok {
+							continue
+						}
+						cas := fmt.Sprintf("character %q %s in %s: %q", rune(ch), []string{"ending a full line", "starting a continuation line"}[where], []string{"a qualifier value", "the DEFINITION", "a COMMENT"}[field], text)
+						var got poly.Sequence
+						cnt++
+						if p := catch(func() { got = genbank.Parse([]byte(gbWrite(rec))) }); p != "" {
+							r.Failf("no-panic", cas, []string{"wrap-boundary"}, "a record", "panic: "+p)
+							continue
+						}
+						c1compare(rec, got, func(clause, exp, g string) { r.Failf(clause, cas, []string{"wrap-boundary"}, exp, g) })
+					}
+				}
+			}
+		}
+		r.Eval(cnt)
+		r.AddStates(cnt)
+		r.AddTransitions(cnt)
+		r.AddNontrivial(cnt)
+		r.Bound("wrap-boundaries", "93 printable characters x glued / own word x end of a full line / start of a continuation line x qualifier value, DEFINITION, COMMENT")
+	}})
 	return us
 }
 
